@@ -1102,7 +1102,7 @@ func vf34Frame(rt *rapid.T, l string, typ byte, payload []byte) []byte {
 // ---- uTLS-specific handshake messages ----
 
 func vf34GenUtlsMsg(rt *rapid.T, l string) (raw []byte, desc string) {
-	typ := rapid.SampledFrom([]int{8, 8, 8, 8, 25, 25, 25, 25, 4, 24, 5, 11, 13, 15, 20, 2, 0, 1, 254, 67}).Draw(rt, l+"_type")
+	typ := rapid.SampledFrom([]int{8, 8, 8, 8, 25, 25, 25, 25, 4, 24, 5, 11, 13, 13, 13, 15, 16, 12, 14, 22, 20, 2, 0, 1, 254, 67}).Draw(rt, l+"_type")
 	var body []byte
 	kind := ""
 	switch typ {
@@ -1166,8 +1166,44 @@ func vf34GenUtlsMsg(rt *rapid.T, l string) (raw []byte, desc string) {
 			kind += "+trailing"
 		}
 	default:
-		body = vf34GenBytes(rt, l+"_obody", 48)
-		kind = fmt.Sprintf("type%d(%d bytes)", typ, len(body))
+		if rapid.Bool().Draw(rt, l+"_structured") {
+			// a body made of length-prefixed fields (the shape of every handshake message) whose declared lengths are honest
+			// or lie a little: half, double, one or two off - the inputs on which a parser's bounds checks are decided
+			nf := rapid.IntRange(1, 4).Draw(rt, l+"_nfields")
+			for k := 0; k < nf; k++ {
+				fl := fmt.Sprintf("%s_f%d", l, k)
+				n := rapid.IntRange(0, 12).Draw(rt, fl+"_n")
+				content := bytes.Repeat([]byte{byte(4 + k)}, n)
+				decl := n
+				switch rapid.IntRange(0, 7).Draw(rt, fl+"_lie") {
+				case 0:
+					decl = n + 1
+				case 1:
+					decl = n + 2
+				case 2:
+					decl = 2 * n
+				case 3:
+					decl = 2*n - 1
+				case 4:
+					if n > 0 {
+						decl = n - 1
+					}
+				}
+				switch rapid.IntRange(0, 3).Draw(rt, fl+"_w") {
+				case 0:
+					body = append(body, byte(vf34Clamp(decl, 255)))
+				case 1, 2:
+					body = vf34PutU16(body, vf34Clamp(decl, 0xffff))
+				default:
+					body = vf34PutU24(body, decl)
+				}
+				body = append(body, content...)
+			}
+			kind = fmt.Sprintf("type%d(%d length-prefixed fields, %d bytes)", typ, nf, len(body))
+		} else {
+			body = vf34GenBytes(rt, l+"_obody", 48)
+			kind = fmt.Sprintf("type%d(%d bytes)", typ, len(body))
+		}
 	}
 	hl := len(body)
 	switch rapid.IntRange(0, 11).Draw(rt, l+"_hdrlen") {
